@@ -314,6 +314,12 @@ func vWRRGen(r *vRand, tier string, idx int) ([]int64, [][]int64) {
 			[]int64{5, 22 * sec, 180 * sec, 10 * sec}, []int64{5, 201*sec - 1, 180 * sec, 10 * sec}, []int64{5, 201 * sec, 180 * sec, 10 * sec},
 			[]int64{5, 202 * sec, 1000 * sec, 10 * sec},
 			[]int64{4, 300 * sec, 10, 1, 3, 4, 0, 1, 1, 1, 2, 1}, []int64{5, 305 * sec, 1000 * sec, 10 * sec}, []int64{5, 311 * sec, 1000 * sec, 10 * sec})
+		// identical reports keep arriving every 100 s: expiration (180 s) counts from the LATEST one
+		for k := int64(0); k < 5; k++ {
+			ops = append(ops, []int64{4, (1300 + 100*k) * sec, 40, 1, 1, 4, 0, 1, 2, 1, 1, 1})
+		}
+		ops = append(ops, []int64{5, 1760 * sec, 180 * sec, 10 * sec}, []int64{5, 1879 * sec, 180 * sec, 10 * sec}, []int64{5, 1880 * sec, 180 * sec, 10 * sec},
+			[]int64{4, 1900 * sec, 40, 1, 1, 4, 0, 1, 2, 1, 1, 1}, []int64{5, 1905 * sec, 180 * sec, 10 * sec}, []int64{5, 1911 * sec, 180 * sec, 10 * sec})
 	case idx == 5:
 		// newScheduler with weights of extreme magnitude m*2^e: around the overflow of
 		// 65535/max (max near 2^-1008), subnormal weights, weights near the largest float
@@ -386,14 +392,21 @@ func vWRRGen(r *vRand, tier string, idx int) ([]int64, [][]int64) {
 	default:
 		sec := int64(1000000000)
 		t := int64(0)
+		var lastRep []int64
 		for i := 0; i < 60; i++ {
 			t += r.I64n(20*sec) + 1
-			if r.Chance(50) {
+			if lastRep != nil && r.Chance(35) {
+				// the same load again (same computed weight), later
+				rep := append([]int64{}, lastRep...)
+				rep[1] = t
+				ops = append(ops, rep)
+			} else if r.Chance(50) {
 				an, cn := r.I64n(100), r.I64n(100)
 				if r.Chance(30) {
 					an = 0
 				}
-				ops = append(ops, []int64{4, t, r.I64n(1000), 1 + r.I64n(10), an, 100, cn, 100, r.I64n(50), 1 + r.I64n(10), r.I64n(5), 1 + r.I64n(3)})
+				lastRep = []int64{4, t, r.I64n(1000), 1 + r.I64n(10), an, 100, cn, 100, r.I64n(50), 1 + r.I64n(10), r.I64n(5), 1 + r.I64n(3)}
+				ops = append(ops, lastRep)
 			} else {
 				ops = append(ops, []int64{5, t, r.PickI64(30*sec, 60*sec, 180*sec), r.PickI64(0, 5*sec, 10*sec, 40*sec)})
 			}
